@@ -822,16 +822,7 @@ fn judge_body(kind: char, body: &[u8], after: bool, ans: &[String]) -> Option<Fa
         Ok(x) => x,
         Err(p) => return oracle(&format!("panic/decode-{}", kind), format!("decoding a text chunk panicked: {}", p)),
     };
-    if body.is_empty() {
-        // A zero-length chunk never reaches `parse_chunk` (stream.rs `ReadChunkData` with
-        // `remaining == 0` goes straight to the CRC), so `parse_text`/`parse_ztxt`/`parse_itxt` are not
-        // called: the chunk is skipped without an error.  Outside the model's domain.
-        note("model", "zero-length text chunk: never parsed");
-        if imp != "count:(0, 0, 0)" {
-            return oracle(&format!("body/{}/empty", kind), format!("zero-length text chunk: decoder answered {}", short(&imp)));
-        }
-        return None;
-    }
+    // (a zero-length chunk is parsed like any other since f31d047: it is simply a body without a separator)
     if !(imp.starts_with("ok ") || imp.starts_with("err:")) {
         return oracle(&format!("body/{}/unexpected", kind), format!("decoder answered {}", short(&imp)));
     }
